@@ -29,10 +29,15 @@ CLAIMED = {
         "text": "Seeded sampling of statement histories (length <= 6, 3-4 tables), each prefix compared with a partial reference model that constrains exactly what the statement constrains; order/duplication clause checked by permuted and repeated delivery; every history runs under one of 8 hash seeds. Not the exhaustive enumeration the quantifier mentions (that would be model checking): coverage is reported as distinct histories and model states reached.",
         "note": "History clause only - there is no I/O, clock or thread in the fold, said plainly in DESIGN.md; RENAME outside the determined zone is checked for weak invariants only; exceptions in the loose zone are not judged; trusted: the model in sim/props/c03.py.",
     },
+    "C04": {
+        "design_ref": "DESIGN.md 4.5",
+        "technique": "history-vs-reference-model simulation of the runner <-> provider-session protocol: seeded statement chains, per-statement facts and session traffic observed through guarded taps, composition oracle over the recorded history; hash-seed variation as the only fault dimension",
+        "text": "Seeded sampling of 2-5 statement chains x provider in {none, SimProvider, Dummy} x both analyzers; the script's column paths must equal the composition of the per-statement pairs the taps reported, the session must follow a register/lookup/deregister model statement by statement, wildcard expansion from session metadata must be exact, and attribution never leaves a statement's candidate set. Shapes the property does not determine (unresolved columns with 0 or >=2 defining candidates, cyclic column graphs, re-definition of a table) are skipped and counted.",
+        "note": "History clause + collaborator only (deterministic in script and metadata, said plainly in DESIGN.md); per-statement pairs are taken from the library's own statement holders through the tap, so a defect inside ONE statement's analysis is invisible here (that is C02, not claimed); trusted: sim/props/c04.py, sim/gen_sql.py.",
+    },
 }
 
 PLANNED = {
-    "C04": "claimed in DESIGN.md 4.5; check not built yet in this commit (in progress)",
     "C14": "claimed in DESIGN.md 4.6; check not built yet in this commit (in progress)",
     "C17": "claimed in DESIGN.md 4.7; check not built yet in this commit (in progress)",
 }
